@@ -261,7 +261,7 @@ def dt_to_string_signature : List String := ["x", "format"]
 /-- the calls of dataiter/dt.py: to_string in the order Python makes them along the source text -/
 def dt_to_string_call_order : List String := ["_pull_str"]
 
-/-- dataiter/dt.py: from_string (sha256 of the function source: 14a94c6c4b66d16c) -/
+/-- dataiter/dt.py: from_string (sha256 of the function source: 03b5aa8323188f3d) -/
 def dt_from_string (truth : Term → Bool) : Out :=
   if truth (Term.app "util.is_scalar" [(Term.sym "x")]) then
     let x' : Term := (Term.app "Vector" [(Term.app "list" [(Term.sym "x")]), (Term.sym "str")]);
@@ -276,14 +276,14 @@ def dt_from_string (truth : Term → Bool) : Out :=
       let f' : Term := (Term.app "np.vectorize" [(Term.app "lambda" [(Term.app "params" [(Term.sym "x")]), (Term.app "datetime.datetime.strptime" [(Term.sym "x"), (Term.sym "format")])])]);
       let eff2 : Term := (Term.app "store" [(Term.app "getitem" [out', (Term.app "~" [na'])]), (Term.app "call" [f', (Term.app ".astype" [(Term.app "getitem" [(Term.sym "x"), (Term.app "~" [na'])]), (Term.sym "object")])])]);
       let out' : Term := (Term.app ".as_datetime" [out']);
-      if (truth (Term.app "Gt" [(Term.app "len" [(Term.app "getitem" [out', (Term.app "~" [na'])])]), (Term.int (0 : Int))]) && truth (Term.app ".all" [(Term.app "Eq" [(Term.app "hour" [(Term.app "getitem" [out', (Term.app "~" [na'])])]), (Term.int (0 : Int))])]) && truth (Term.app ".all" [(Term.app "Eq" [(Term.app "minute" [(Term.app "getitem" [out', (Term.app "~" [na'])])]), (Term.int (0 : Int))])]) && truth (Term.app ".all" [(Term.app "Eq" [(Term.app "second" [(Term.app "getitem" [out', (Term.app "~" [na'])])]), (Term.int (0 : Int))])])) then
+      if (truth (Term.app "Gt" [(Term.app "len" [(Term.app "getitem" [out', (Term.app "~" [na'])])]), (Term.int (0 : Int))]) && truth (Term.app ".all" [(Term.app "Eq" [(Term.app "hour" [(Term.app "getitem" [out', (Term.app "~" [na'])])]), (Term.int (0 : Int))])]) && truth (Term.app ".all" [(Term.app "Eq" [(Term.app "minute" [(Term.app "getitem" [out', (Term.app "~" [na'])])]), (Term.int (0 : Int))])]) && truth (Term.app ".all" [(Term.app "Eq" [(Term.app "second" [(Term.app "getitem" [out', (Term.app "~" [na'])])]), (Term.int (0 : Int))])]) && truth (Term.app ".all" [(Term.app "Eq" [(Term.app "microsecond" [(Term.app "getitem" [out', (Term.app "~" [na'])])]), (Term.int (0 : Int))])])) then
         let out' : Term := (Term.app ".as_date" [out']);
         Out.ret [eff0, eff1, eff2] out'
       else
         Out.ret [eff0, eff1, eff2] out'
     else
       let out' : Term := (Term.app ".as_datetime" [out']);
-      if (truth (Term.app "Gt" [(Term.app "len" [(Term.app "getitem" [out', (Term.app "~" [na'])])]), (Term.int (0 : Int))]) && truth (Term.app ".all" [(Term.app "Eq" [(Term.app "hour" [(Term.app "getitem" [out', (Term.app "~" [na'])])]), (Term.int (0 : Int))])]) && truth (Term.app ".all" [(Term.app "Eq" [(Term.app "minute" [(Term.app "getitem" [out', (Term.app "~" [na'])])]), (Term.int (0 : Int))])]) && truth (Term.app ".all" [(Term.app "Eq" [(Term.app "second" [(Term.app "getitem" [out', (Term.app "~" [na'])])]), (Term.int (0 : Int))])])) then
+      if (truth (Term.app "Gt" [(Term.app "len" [(Term.app "getitem" [out', (Term.app "~" [na'])])]), (Term.int (0 : Int))]) && truth (Term.app ".all" [(Term.app "Eq" [(Term.app "hour" [(Term.app "getitem" [out', (Term.app "~" [na'])])]), (Term.int (0 : Int))])]) && truth (Term.app ".all" [(Term.app "Eq" [(Term.app "minute" [(Term.app "getitem" [out', (Term.app "~" [na'])])]), (Term.int (0 : Int))])]) && truth (Term.app ".all" [(Term.app "Eq" [(Term.app "second" [(Term.app "getitem" [out', (Term.app "~" [na'])])]), (Term.int (0 : Int))])]) && truth (Term.app ".all" [(Term.app "Eq" [(Term.app "microsecond" [(Term.app "getitem" [out', (Term.app "~" [na'])])]), (Term.int (0 : Int))])])) then
         let out' : Term := (Term.app ".as_date" [out']);
         Out.ret [eff0, eff1] out'
       else
@@ -296,7 +296,7 @@ def dt_from_string_decorators : List String := []
 def dt_from_string_signature : List String := ["x", "format"]
 
 /-- the calls of dataiter/dt.py: from_string in the order Python makes them along the source text -/
-def dt_from_string_call_order : List String := ["util.is_scalar", "Vector", "from_string", "isinstance", "isinstance", "np.full_like", "Vector.fast", "na.all", "np.vectorize", "x[~na].astype", "f", "out.as_datetime", "len", "hour", "(hour(out[~na]) == 0).all", "minute", "(minute(out[~na]) == 0).all", "second", "(second(out[~na]) == 0).all", "out.as_date"]
+def dt_from_string_call_order : List String := ["util.is_scalar", "Vector", "from_string", "isinstance", "isinstance", "np.full_like", "Vector.fast", "na.all", "np.vectorize", "x[~na].astype", "f", "out.as_datetime", "len", "hour", "(hour(out[~na]) == 0).all", "minute", "(minute(out[~na]) == 0).all", "second", "(second(out[~na]) == 0).all", "microsecond", "(microsecond(out[~na]) == 0).all", "out.as_date"]
 
 /-- dataiter/dt.py: year (sha256 of the function source: 966527defa24e52d) -/
 def dt_year (truth : Term → Bool) : Out :=
